@@ -28,6 +28,8 @@ def run(rep, tier):
     H.r_evt_sort(rep, hc)
     rep.rule("R-TIME-MINMAX", "time points in the output handler are never ordered with a bare min/max/clamp (direction-dependent): only sorted pairs or under a direction test")
     H.r_time_minmax(rep, hc)
+    rep.rule("R-TIME-ORDER", "an ordering test between two time points (a time difference compared with a tolerance, not under abs) is never evaluated in the same form for both directions of integration")
+    H.r_time_order(rep, hc)
     H.r_term(rep, hc)
     rep.explanation = ("Structural + finite-domain: shapes, provenance of reported event states, complete truth table of the direction filter, "
                        "chronological ordering. Not decided: |g(t_e,y_e)| small and t_e inside the bracket (Brent's invariants over run-time floats).")
